@@ -330,18 +330,145 @@ pub fn long_case_strategy() -> impl Strategy<Value = Case> {
     })
 }
 
+// ---------------------------------------------------------------------------------------
+// emulator level: only play starts the deck
+
+#[derive(Clone, Debug, Serialize, Deserialize)]
+pub struct DeckCase {
+    pub machine: crate::host::Machine,
+    /// 0 = tape inserted, never played; 1 = played for `play_loops` delay loops, then stopped;
+    /// 2 = playing (control: the sampling must see the pilot tone)
+    pub deck: u8,
+    pub play_loops: u8,
+    /// host call made while the deck is in that state: 0 save_snapshot(SNA), 1 load_screen(SCR),
+    /// 2 execute_poke, 3 set_fast_load on and off, 4 set_sound off and on, 5 set_ay_enabled, 6 none
+    pub host_call: u8,
+    pub sp: u16,
+}
+
+/// "The EAR level is frozen and no tape is consumed while stopped": a stopped (or never started)
+/// deck stays stopped whatever else the host does with the emulator; only play starts it.
+pub fn check_deck(c: &DeckCase, rec: &mut Rec) -> Result<(), String> {
+    use crate::host::{mk_emu, DynAsset, EmuOpts, Machine};
+    use crate::mach::{self, MemModel, RegFile};
+    use rustzx_core::host::{Screen, SnapshotRecorder, Tape};
+    let machine = c.machine;
+    let mut e = mk_emu(&EmuOpts::new(machine));
+    let mut mm = MemModel::new(machine, mach::rom_images(machine));
+    let image = tap::write(&[tap::block(0xFF, &[1, 2, 3, 4, 5, 6, 7, 8], true)]);
+    e.load_tape(Tape::Tap(DynAsset::new(MemAsset::new(image)))).map_err(|x| format!("load_tape: {:?}", x))?;
+    mach::poke_bytes(&mut e, &mut mm, 0x8000, &[0xED, 0x78]);
+    let sp = 0x9000 + (c.sp % 0x2000);
+    let delay = |e: &mut crate::host::Emu, mm: &mut MemModel, n: u8| -> Result<(), String> {
+        mach::poke_bytes(e, mm, 0x8010, &[0x06, n, 0x10, 0xFE, 0x00]);
+        mach::set_regs(e, &RegFile { pc: 0x8010, sp, ..Default::default() });
+        if mach::run_to(e, &[0x8014], 3)?.is_none() {
+            return Err("harness: delay loop did not finish".into());
+        }
+        Ok(())
+    };
+    let read = |e: &mut crate::host::Emu| -> Result<u8, String> {
+        mach::set_regs(e, &RegFile { pc: 0x8000, sp, bc: 0x7FFE, ..Default::default() });
+        mach::step_over(e, 2)?;
+        Ok(((mach::get_regs(e).af >> 8) as u8 >> 6) & 1)
+    };
+    match c.deck % 3 {
+        1 => {
+            e.play_tape();
+            for _ in 0..(c.play_loops % 16) + 1 {
+                delay(&mut e, &mut mm, 251)?;
+            }
+            e.stop_tape();
+        }
+        2 => e.play_tape(),
+        _ => {}
+    }
+    let level = read(&mut e)?;
+    mach::set_regs(&mut e, &RegFile { pc: 0x8010, sp, ..Default::default() });
+    let call = c.host_call % 7;
+    match call {
+        0 => {
+            let mut file = Vec::new();
+            e.save_snapshot(SnapshotRecorder::Sna(crate::props::c13::VecRecorder(&mut file))).map_err(|x| format!("save_snapshot: {:?}", x))?;
+        }
+        1 => e.load_screen(Screen::Scr(MemAsset::new(vec![0x55; 6912]))).map_err(|x| format!("load_screen: {:?}", x))?,
+        2 => {
+            struct P([rustzx_core::poke::PokeAction; 1]);
+            impl rustzx_core::poke::Poke for P {
+                fn actions(&self) -> &[rustzx_core::poke::PokeAction] {
+                    &self.0
+                }
+            }
+            e.execute_poke(P([rustzx_core::poke::PokeAction::mem(0x9800, 1)]));
+        }
+        3 => {
+            e.set_fast_load(true);
+            e.set_fast_load(false);
+        }
+        4 => {
+            e.set_sound(false);
+            e.set_sound(true);
+        }
+        5 => e.set_ay_enabled(true),
+        _ => {}
+    }
+    // (load_screen parks the CPU in a loop it writes at 0x8000: put the sampling stub back)
+    mach::poke_bytes(&mut e, &mut mm, 0x8000, &[0xED, 0x78, 0x00]);
+    let mut toggles = 0u32;
+    let mut prev = level;
+    for k in 0..40u32 {
+        delay(&mut e, &mut mm, 200 + (k % 50) as u8)?;
+        let b = read(&mut e)?;
+        rec.eval();
+        if b != prev {
+            toggles += 1;
+            prev = b;
+        }
+    }
+    let names = ["save_snapshot(SNA)", "load_screen", "execute_poke", "set_fast_load on/off", "set_sound off/on", "set_ay_enabled", "nothing"];
+    if c.deck % 3 == 2 {
+        if toggles < 5 {
+            return Err(format!("the deck is playing (host call in between: {}): 40 EAR samples about 3000 T-states apart show only {} level changes, the pilot tone changes level every 2168 T-states", names[call as usize], toggles));
+        }
+        rec.class("deck-playing:pilot-seen");
+    } else {
+        if toggles != 0 {
+            return Err(format!(
+                "the deck was {} when the host called {}; no play command followed, but the EAR input changed level {} times over the next 120000 T-states: the tape is running",
+                if c.deck % 3 == 0 { "never started" } else { "stopped" }, names[call as usize], toggles
+            ));
+        }
+        rec.class(if c.deck % 3 == 0 { "deck-never-started:frozen" } else { "deck-stopped:frozen" });
+        if call != 6 {
+            rec.nontrivial(fnv(format!("{:?}", c).as_bytes()));
+        }
+    }
+    rec.class(&format!("host-call:{}", names[call as usize]));
+    let _ = Machine::K48;
+    Ok(())
+}
+
+pub fn deck_strategy() -> impl Strategy<Value = DeckCase> {
+    (prop_oneof![Just(crate::host::Machine::K48), Just(crate::host::Machine::K128)], 0u8..3, any::<u8>(), 0u8..7, any::<u16>())
+        .prop_map(|(machine, deck, play_loops, host_call, sp)| DeckCase { machine, deck, play_loops, host_call, sp })
+}
+
 pub fn run(run: &mut Run) {
     let t = run.tier;
     run.explore("histories", t.pick(24_000, 600_000), case_strategy, check);
     run.explore("long-block-histories", t.pick(8_000, 200_000), long_case_strategy, check);
+    run.explore("deck-and-other-host-calls", t.pick(800, 20_000), deck_strategy, check_deck);
 }
 
 pub fn replay(run: &mut Run, phase: &str, case: &serde_json::Value) -> Result<(), String> {
+    if phase == "deck-and-other-host-calls" {
+        return run.replay_one::<DeckCase, _>(phase, case, check_deck);
+    }
     run.replay_one::<Case, _>(phase, case, check)
 }
 
 pub const LEVEL: &str = "exploration";
-pub const RULE: &str = "histories: case = tape of 1..2 short data blocks x history of 1..25 commands over {play, stop, rewind, advance n T-states} with n from 1 to 12 M so that commands land mid-pilot, mid-sync, mid-byte, in the pause and after the end, incl. stop-stop-play, play-play and rewind while playing/stopped; the pulse generator is driven through the hook re-export in steps of 1..16 T; the tape asset delivers everything at once or in short reads, and in a fifth of the cases the host has consumed the first bytes of the file before handing it over and starts with a rewind. Oracle: deck model — no EAR edge while stopped; the edge stream over *playing time* is cut at every rewind and after every complete pass, and each piece must be a prefix of the nominal waveform of the whole tape (clean pilot of the right length, sync, every bit pulse within nominal..nominal+32, pauses), so blocks appear once and in order and a stop/play pair neither loses nor repeats a pulse; a new pass after the end needs a play command. long-block-histories: the same oracle over tapes of 1..3 blocks of 0..420 bytes (lengths around the 128-byte multiples of the read buffer of the player, data and header flags), histories of 1..17 commands with advances that land inside the data bytes, steps of 7/13/16 T. non-trivial = history with a stop->play resume, a double stop, a play after end-of-tape or a rewind after playing started, and at least one edge observed; distinct = hash of the case";
+pub const RULE: &str = "histories: case = tape of 1..2 short data blocks x history of 1..25 commands over {play, stop, rewind, advance n T-states} with n from 1 to 12 M so that commands land mid-pilot, mid-sync, mid-byte, in the pause and after the end, incl. stop-stop-play, play-play and rewind while playing/stopped; the pulse generator is driven through the hook re-export in steps of 1..16 T; the tape asset delivers everything at once or in short reads, and in a fifth of the cases the host has consumed the first bytes of the file before handing it over and starts with a rewind. Oracle: deck model — no EAR edge while stopped; the edge stream over *playing time* is cut at every rewind and after every complete pass, and each piece must be a prefix of the nominal waveform of the whole tape (clean pilot of the right length, sync, every bit pulse within nominal..nominal+32, pauses), so blocks appear once and in order and a stop/play pair neither loses nor repeats a pulse; a new pass after the end needs a play command. long-block-histories: the same oracle over tapes of 1..3 blocks of 0..420 bytes (lengths around the 128-byte multiples of the read buffer of the player, data and header flags), histories of 1..17 commands with advances that land inside the data bytes, steps of 7/13/16 T. deck-and-other-host-calls (emulator level): with the deck never started, stopped after playing, or playing, the host calls one of save_snapshot(SNA), load_screen, execute_poke, set_fast_load, set_sound, set_ay_enabled; 40 EAR samples over the next 120000 T-states must show a frozen level unless the deck is playing (then the pilot tone must be seen). non-trivial = history with a stop->play resume, a double stop, a play after end-of-tape or a rewind after playing started, and at least one edge observed; distinct = hash of the case";
 pub const ASSUMPTIONS: &[&str] = &[
     "a change of the idle EAR level caused by rewind itself is not counted as a waveform edge",
     "first phase: tapes are short (pilot lengths dominate cost) with data-flag blocks only; long blocks and header-flag blocks are in the second phase with fewer cases",
